@@ -7,7 +7,7 @@ that is computed here from what the in-memory back end handed to the tuning loop
 given (nothing of the reference is read from the objects under test).
 
 Part A  real ``Tuner`` on an in-memory ``TrialBackend``:
-        * scripted fixed-list scheduler: 16 structural shapes (plain, trial failing without / after results, STOP with a
+        * scripted fixed-list scheduler: 17 structural shapes (plain, trial failing without / after results, STOP with a
           result of the same batch handed to the loop but never delivered, PAUSE + resume with changed / same
           configuration, PAUSE for good, NaN values, late / missing metrics, equal optima, one result, no result at all,
           back-end supplied tuner time, stop criterion leaving trials running, text column, integer metrics) x metric
@@ -18,7 +18,8 @@ Part A  real ``Tuner`` on an in-memory ``TrialBackend``:
           changed, MOASHA = list of modes, PBT) on learning curves that are functions of the configuration.
 Part B  ``StoreResultsCallback`` + ``TuningStatus`` driven directly on ALL small tables: every sequence of <= 4 (5) cells
         from {low, high, NaN, missing} for the first metric (second metric mirrored), 3 row-to-trial patterns, 6 metric /
-        mode declarations, trials without any result, plus seed-dependent random tables (<= 4 trials x <= 4 results,
+        mode declarations, trials without any result, 5 special tables (results without any number, empty results,
+        text and numbers in one auxiliary column), plus seed-dependent random tables (<= 4 trials x <= 4 results,
         3 metrics, negative / huge / tiny / integer values, inf in an auxiliary column, text column).
 Part C  ``metric_name_mode`` on every declaration x every index / name.
 Part D  read-back of text values that are spelled like pandas' missing-value markers ('None', 'NA', '', ...), as a
@@ -29,7 +30,17 @@ which of the configurations of a resumed trial ``Tuner.best_config`` returns; fl
 summation order (first-order bound); min / max / sum of a metric for which numbers AND non-numbers were handed
 (documented: "statistics are tracked for numeric types only, the first type defines the type"); min / max when only NaN
 was handed (must not be a finite number); sum once a NaN was handed (NaN or the sum of the numbers); the best
-configuration when no number was handed for the chosen metric; how an empty table is stored.
+configuration when no number was handed for the chosen metric; how an empty table is stored; sums whose partial sums
+leave the range of a double.
+
+Two clauses are refuted on the pinned tree (genuine defects, each under a clause name of its own so that every other
+clause keeps being checked):
+  * run-end-summary-...[modes-declared-as-list]: ``Tuner.run`` hands ``scheduler.metric_mode()`` -- a list for
+    multi-objective schedulers -- to ``print_best_metric_found``, which only tests ``mode == "min"``; the first metric is
+    then maximised, so for modes ["min", ...] the summary reports the WORST trial as best.
+  * read-back-keeps-text-values-spelled-like-missing-value-markers: ``load_experiment`` uses ``pd.read_csv`` with the
+    default NA markers, so a categorical hyper-parameter / text metric with the value "None", "NA", "", "null", ... is
+    read back as NaN (also in ``ExperimentResult.best_config``).
 
 Bounded stand-in, never counted as proved.
 """
@@ -912,11 +923,11 @@ def _tuner_catalogue(tier, seed):
             spec = {"id": "A%d/%s/w%d-b%d-i%d" % (n, shape, WORKERS[w], b, iv), "metrics": names, "modes": modes, "trials": _shape(shape, rng), "n_workers": WORKERS[w], "burst": BURSTS[b], "interval": INTERVALS[iv][0], "jumps": INTERVALS[iv][1]}
             if shape == "stop-criterion-leaves-trials-running":
                 spec["stop_after_finished"] = 2
-            spec["mid_run_best"] = ci % 3 == 0
+            spec["mid_run_best"] = ci % (3 if tier == "quick" else 9) == 0
             specs.append(spec)
             n += 1
     rng = np.random.RandomState(7919 * seed + 11)
-    for j in range(40 if tier == "quick" else 160):
+    for j in range(40 if tier == "quick" else 120):
         names, modes = METRIC_VARIANTS[int(rng.randint(len(METRIC_VARIANTS)))]
         iv = int(rng.randint(3))
         specs.append({"id": "A%d/random-script-%d" % (n, j), "metrics": names, "modes": modes, "trials": _random_script(rng), "n_workers": int(rng.randint(1, 4)), "burst": BURSTS[int(rng.randint(3))], "interval": INTERVALS[iv][0], "jumps": INTERVALS[iv][1], "mid_run_best": j % 4 == 0, "disk_steps": j % 2 == 0})
@@ -1026,11 +1037,23 @@ def _enumerated_tables(tier):
     return tables
 
 
+def _special_tables():
+    """results without any number, empty results, a metric that is text in one trial and numeric in another"""
+    specs = [
+        ("text-only-results", [(0, {"phase": "warmup"}), (0, {"phase": "train"}), (1, {"phase": "warmup"})]),
+        ("text-only-then-numbers", [(0, {"phase": "warmup"}), (0, {"phase": "train", "m1": 0.5, "m2": 1}), (1, {"m1": 0.25, "m2": 3}), (1, {"phase": "done"})]),
+        ("empty-results", [(0, {}), (1, {"m1": 0.75, "m2": 0.5}), (1, {}), (0, {"m1": 0.5})]),
+        ("numbers-then-empty", [(0, {"m1": 2, "m2": -1}), (0, {}), (0, {})]),
+        ("text-metric-in-auxiliary-column", [(0, {"m1": 0.5, "m2": 0.1, "note": "ok"}), (1, {"m1": 0.4, "m2": 0.2, "note": 3}), (0, {"m1": 0.3, "m2": 0.3, "note": 1.5})]),
+    ]
+    return [{"id": "B/special-%s" % k, "declaration": DECLARATIONS[i % len(DECLARATIONS)], "rows": rows, "idle_trials": [5] if i % 2 else [], "jumps": [(), (1,), "all"][i % 3]} for i, (k, rows) in enumerate(specs)]
+
+
 def _random_tables(tier, seed):
     rng = np.random.RandomState(104729 * seed + 3)
     pool = [0.25, 0.75, -1.5, 3, 0, -0.0, 1e15, 1.7976931348623157e308, 5e-324, 1e-300, 0.1 + 0.2, 1 / 3, 123456789.123456789, -7, NAN, NAN, MISSING, MISSING]
     tables = []
-    for j in range(60 if tier == "quick" else 300):
+    for j in range(60 if tier == "quick" else 200):
         n_trials = int(rng.randint(1, 5))
         rows = []
         for t in range(n_trials):
@@ -1209,10 +1232,8 @@ def monitor_results(tier="quick", seed=0):
         for spec in specs:
             _run_tuner(book, env, classes, root, spec, config_space=config_space)
         shipped, changed = _shipped_runs(book, env, classes, root, tier, seed)
-        if changed == 0:
-            raise RuntimeError("c17 monitor: no shipped-scheduler run resumed a trial with a changed configuration")
         # Part B
-        tables = _enumerated_tables(tier) + _random_tables(tier, seed)
+        tables = _enumerated_tables(tier) + _special_tables() + _random_tables(tier, seed)
         for i, table in enumerate(tables):
             _drive_table(book, env, root, table, "b%d" % i)
         # Part C
@@ -1232,6 +1253,8 @@ def monitor_results(tier="quick", seed=0):
         shutil.rmtree(root, ignore_errors=True)
     global _LAST_BOOK
     _LAST_BOOK = book
+    if changed == 0 and not book.viol:
+        raise RuntimeError("c17 monitor: no shipped-scheduler run resumed a trial with a changed configuration")
     empty = [c for c in CLAUSES if book.per[c] == 0]
     if empty:
         raise RuntimeError("c17 monitor: clauses without a single check: %s" % empty)
